@@ -424,6 +424,10 @@ pub fn plan(c: &TCase) -> Plan {
             args = (0..p).map(|i| args[i % n].clone()).collect();
         }
     }
+    // a template without placeholders: half of the cases pass an empty list (doubled marks are still collapsed)
+    if c.api != Api::Expr && !segs.iter().any(|s| matches!(s, Seg::Ph(_))) && c.args.len() % 2 == 0 {
+        args.clear();
+    }
     let template: String = segs.iter().map(|s| seg_text(d, s)).collect();
     Plan { segs, args, api: c.api, template }
 }
